@@ -1954,6 +1954,13 @@ func (c *ChannelArbitrator) checkCommitChainActions(height uint32,
 	}
 
 	for _, htlc := range htlcs.incomingHTLCs {
+		// A dust HTLC has no output on the commitment transaction, so
+		// there's nothing to pull on-chain even if we know the
+		// pre-image. It's never a reason to go on-chain.
+		if htlc.OutputIndex < 0 {
+			continue
+		}
+
 		// We'll need to go on-chain to pull an incoming HTLC iff we
 		// know the pre-image and it's close to timing out. We need to
 		// ensure that we claim the funds that are rightfully ours
